@@ -384,7 +384,9 @@ async fn serve(mut s: tokio_rustls::server::TlsStream<tokio::net::TcpStream>, se
                     }
                     FaultKind::ErrorRootThenPositiveRootSameId | FaultKind::ErrorRootThenPositiveRootOtherId => {
                         let first = reply(&idv, &format!("<load-configuration-results>{RPC_ERROR}<load-error-count>1</load-error-count></load-configuration-results>"));
-                        let mut b = first[..first.len() - MARKER.len()].to_vec();
+                        // (reply() ends in the delimiter and a newline)
+                        let cut = first.windows(MARKER.len()).rposition(|w| w == MARKER.as_bytes()).unwrap_or(first.len());
+                        let mut b = first[..cut].to_vec();
                         let other = if *f == FaultKind::ErrorRootThenPositiveRootSameId { idv.clone() } else { "999999".to_string() };
                         b.extend(reply(&other, &ok_body));
                         Some(b)
